@@ -34,6 +34,68 @@ def drivers(F):
     return ds
 
 
+def load_delivers(rep, F, recv_key="saphyr_parser::parser::SpannedEventReceiver::on_event", rule="load-delivers"):
+    P = PARSER
+    ld = F.fn(P + "::load")
+    doc_calls = [bb for bb, t, ck, fr in ld.calls() if ck == P + "::load_document"]
+    # every call of load that returns Ok has handed something to the receiver: a whole document, or StreamEnd (an exhausted parser still
+    # answers StreamEnd; a path that returns Ok in silence ends the sentence early for a caller that loads document by document)
+    EVENT = "saphyr_parser::parser::Event"
+
+    def _variant_of_const(f, op):
+        l = is_local(op)
+        for _ in range(5):
+            if l is None:
+                return None
+            ds = cfg.defs_of_local(f, l)
+            if len(ds) != 1 or ds[0][0] != "stmt":
+                return None
+            rv = ds[0][3]["rv"]
+            if rv["k"] == "agg" and rv.get("adt") == EVENT:
+                return rv["variant"]
+            if rv["k"] == "use":
+                c = op_const(rv["a"])
+                if c is not None and c.get("promoted") is not None:
+                    for b in f.d["promoted"][c["promoted"]]["blocks"]:
+                        for st in b["stmts"]:
+                            if st["k"] == "assign" and st["rv"]["k"] == "agg" and st["rv"].get("adt") == EVENT:
+                                return st["rv"]["variant"]
+                    return None
+                l = is_local(rv["a"])
+            elif rv["k"] in ("ref", "copyforderef"):
+                pl = rv["p"]
+                l = pl["l"] if all(e["k"] == "deref" for e in pl["p"]) else None
+            else:
+                return None
+        return None
+    end_deliveries = set()
+    for bb, t, ck, fr in ld.calls():
+        if ck != recv_key:
+            continue
+        if _variant_of_const(ld, t["args"][1]) == "StreamEnd":
+            end_deliveries.add(bb)
+            continue
+        # forwarded on the `== StreamEnd` edge of a comparison
+        for b2 in ld.dominators().get(bb, ()):
+            t2 = ld.blocks[b2]["term"]
+            if t2["k"] != "switch":
+                continue
+            pred = [p for p in ld.preds(b2) if ld.blocks[p]["term"]["k"] == "call" and ld.blocks[p]["term"]["t"] == b2]
+            for pb in pred:
+                tc = ld.blocks[pb]["term"]
+                fk = tc["f"].get("fn") or {}
+                nm = fk.get("key", "")
+                if nm.endswith(("PartialEq::eq", "PartialEq::ne")) or nm.endswith(("::eq", "::ne")):
+                    if any(_variant_of_const(ld, a) == "StreamEnd" for a in tc["args"]):
+                        m, other = cfg.switch_edge_blocks(ld, b2)
+                        yes = m.get(0) if nm.endswith("ne") else other
+                        if yes is not None and (bb == yes or cfg.dominated_by_edge(ld, bb, b2, yes)):
+                            end_deliveries.add(bb)
+    esc = cfg.escapes(ld, 0, set(doc_calls) | end_deliveries, avoid=cfg.err_sink_blocks(ld))
+    rep.check(esc is None and end_deliveries, rule, "load", "Parser::load can return Ok without having handed a document or StreamEnd to the receiver "
+              "(a caller loading one document per call never sees the end of the stream)", site=ld.span, detail={"silent_path_blocks": esc, "stream_end_deliveries": sorted(end_deliveries)})
+
+
 def run(tier):
     rep = new_report(tier)
     F = facts.load()
@@ -227,6 +289,7 @@ def run(tier):
                 good = True
     rep.check(good and len(doc_calls) == 1, "one-document-per-call", "load",
               "Parser::load no longer stops after exactly one document when multi is false (or keeps going when it is true)", site=ld.span)
+    load_delivers(rep, F, recv_key)
     # load_document: exactly one load_node between two receiver calls
     ldoc = F.fn(P + "::load_document")
     ln = [bb for bb, t, ck, fr in ldoc.calls() if ck == P + "::load_node"]
